@@ -101,7 +101,11 @@ class SramWorld(World):
         for k_, v_ in (config.get("patch") or []):
             if depth_cfg:
                 k_ %= depth_cfg
-                dut.init[k_] = v_ & ((1 << dw) - 1)      # item assignment on the reported image
+                try:
+                    dut.init[k_] = v_ & ((1 << dw) - 1)  # item assignment on the reported image
+                except IndexError as e:
+                    raise Violation("C15", "init-image-does-not-cover-every-row", 0,
+                                    f"init[{k_}] = ... on a memory of {depth_cfg} rows: {e}")
                 image += [0] * (k_ + 1 - len(image))
                 image[k_] = v_ & ((1 << dw) - 1)
                 stats.fault("init_patched_in_place")
